@@ -1,5 +1,5 @@
 """Grammar generators for the engine properties.  A grammar expression is a nested tuple:
-('rune', c) ('empty',) ('end',) ('ref', k) ('memo', idx, p) ('any', [ps]) ('choice', [ps]) ('opt', p)
+('rune', c) ('lit', <Coq text of a Literals.literal>) ('empty',) ('end',) ('ref', k) ('memo', idx, p) ('any', [ps]) ('choice', [ps]) ('opt', p)
 ('seq', kind, ip, single, name, [ps]) ('name', nm, p) ('ltrim', mode, p) ('rtrim', mode, p) ('suppress', p) ('single', p)
 kind: 'SeqOf' 'SeqTry' 'SeqFirstOrAll' ('SMany', bool) ('SSepBy', bool); ip: 'INone' ('ISelect', i) 'IArray' 'IObject' 'INil'.
 A case = (rules, root, data bytes, offset, flags)."""
@@ -32,6 +32,8 @@ def to_coq(e):
     t = e[0]
     if t == 'rune':
         return "(PTerm (TRune %d))" % e[1]
+    if t == 'lit':
+        return "(PTerm (TLit %s))" % e[1]
     if t == 'empty':
         return "PEmpty"
     if t == 'end':
@@ -109,7 +111,7 @@ def nullable_table(rules):
 
 def nullable(e, tab):
     t = e[0]
-    if t == 'rune':
+    if t in ('rune', 'lit'):
         return False
     if t in ('empty', 'end', 'opt'):
         return True
@@ -229,12 +231,18 @@ def one_rule_grammars(size):
 
 # ---------------------------------------------------------------- random
 
-def rand_expr(rng, depth, nrules, ops, leaf_w=None):
-    leaves = [('rune', A), ('rune', A), ('rune', B), ('rune', B), ('empty',)] + [('ref', k) for k in range(nrules)] * 2
+def rand_expr(rng, depth, nrules, ops, leaf_w=None, terminals=None):
+    terms = terminals if terminals is not None else [('rune', A), ('rune', A), ('rune', B), ('rune', B)]
+    leaves = (terms if terminals is None else [rng.choice(terms) for _ in range(6)]) + [('empty',)] + \
+        [('ref', k) for k in range(nrules)] * 2
     if depth <= 0 or rng.random() < 0.25:
         return rng.choice(leaves)
     op = rng.choice(ops)
-    sub = lambda: rand_expr(rng, depth - 1, nrules, ops)
+    sub = lambda: rand_expr(rng, depth - 1, nrules, ops, terminals=terminals)
+    if op == 'ltrim':
+        return ('ltrim', rng.choice(WSMODES), sub())
+    if op == 'rtrim':
+        return ('rtrim', rng.choice(WSMODES), sub())
     if op == 'any':
         return ('any', [sub() for _ in range(rng.choice([2, 2, 3]))])
     if op == 'choice':
@@ -265,6 +273,7 @@ def rand_expr(rng, depth, nrules, ops, leaf_w=None):
     raise ValueError(op)
 
 
+WSMODES = ['WsSpaces', 'WsSpaces', 'WsSpacesNl', 'WsNone', 'WsSpacesForceNl']
 MONO = ['any', 'any', 'seq', 'seq', 'seq', 'opt']
 FULL = MONO + ['choice', 'seqtry', 'sfoa', 'many', 'sepby', 'name', 'nseq', 'suppress', 'single']
 
@@ -293,12 +302,12 @@ def uniquify_memo(rules, root):
     return rules2, fix(root)
 
 
-def rand_grammar(rng, ops, max_rules=3, depth=3):
+def rand_grammar(rng, ops, max_rules=3, depth=3, terminals=None):
     """rules are memoized bodies; root refers to rule 0 (or is an expression over the rules)"""
     for _ in range(200):
         n = rng.choice(list(range(1, max_rules + 1)))
-        rules = [('memo', k + 1, rand_expr(rng, depth, n, ops)) for k in range(n)]
-        root = ('ref', 0) if rng.random() < 0.7 else rand_expr(rng, 2, n, ops)
+        rules = [('memo', k + 1, rand_expr(rng, depth, n, ops, terminals=terminals)) for k in range(n)]
+        root = ('ref', 0) if rng.random() < 0.7 else rand_expr(rng, 2, n, ops, terminals=terminals)
         rules, root = uniquify_memo(rules, root)
         if repetition_ok(rules, root):
             return rules, root
@@ -326,7 +335,7 @@ def productive_table(rules):
 
 def produces(e, tab):
     t = e[0]
-    if t in ('rune', 'empty', 'end', 'opt'):
+    if t in ('rune', 'lit', 'empty', 'end', 'opt'):
         return True
     if t == 'ref':
         return tab[e[1]]
@@ -368,3 +377,117 @@ def name_alternatives(e, counter):
 
 def has_op(rules, root, ops):
     return any(e[0] in ops for e in itertools.chain(*[walk(r) for r in rules + [root]]))
+
+
+# ---------------------------------------------------------------- literal terminals (text/terminal, Literals.v)
+
+def coq_bytes(s):
+    return nums(list(s.encode()))
+
+
+def lit(text):
+    return ('lit', text)
+
+
+LIT_INTEGER = lit("LInteger")
+LIT_FLOAT = lit("LFloat")
+LIT_STRING = lit("(LString false)")
+LIT_STRING_BQ = lit("(LString true)")
+LIT_CHAR = lit("LChar")
+LIT_BOOL = lit("(LBool %s %s)" % (coq_bytes("true"), coq_bytes("false")))
+LIT_NIL = lit("(LNil %s)" % coq_bytes("null"))
+LIT_DURATION = lit("LDuration")
+
+
+def lit_op(s):
+    return lit("(LOp %s)" % coq_bytes(s))
+
+
+def lit_word(s):
+    return lit("(LWord %s)" % coq_bytes(s))
+
+
+def lit_rune(c):
+    return lit("(LRune %d)" % c)
+
+
+# the pool the ENG literal stream draws its terminals from (all inside Literals.lit_domain; names of
+# Word/Op/Rune are printable ASCII without quote and backslash, where strconv.Quote adds only the quotes)
+LIT_POOL = [LIT_INTEGER, LIT_INTEGER, LIT_FLOAT, LIT_STRING, LIT_STRING, LIT_STRING_BQ, LIT_CHAR, LIT_BOOL, LIT_NIL,
+            LIT_DURATION, lit_op(","), lit_op("["), lit_op("]"), lit_op("+"), lit_op("=="), lit_word("x"), lit_word("nu"), lit_word("eof"),
+            lit_rune(44), lit_rune(233), ('rune', 44), ('rune', 91), ('rune', 93)]
+# small literal fragments the inputs are built from
+LIT_FRAGMENTS = ["1", "12", "0", "07", "0x1F", "-3", '"ab"', '""', '"a\\n"', '"a', "`b`", "true", "false", "null", "nu",
+                 "x", "eof", "1.5", ".5", "-0.25", "1.", "2m", "1h3s", "'a'", "'\\n'", "'ab'", " ", " ", "  ", "\n", "\t", ",", ",",
+                 "[", "]", "+", "==", "=", "\u00e9", "truex", "\r\n"]
+LIT_OPS = MONO + ['choice', 'seqtry', 'sfoa', 'many', 'sepby', 'name', 'nseq', 'suppress', 'single',
+                  'ltrim', 'ltrim', 'ltrim', 'rtrim', 'rtrim', 'rtrim']
+
+
+def rand_lit_input(rng, maxfrag=5):
+    return list("".join(rng.choice(LIT_FRAGMENTS) for _ in range(rng.randrange(maxfrag + 1))).encode())
+
+
+LIT_EXAMPLES = {
+    "LInteger": ["1", "12", "0", "-3", "0x1F", "07", "12.", "1", "42", "+7", "9223372036854775808"],
+    "LFloat": ["1.5", ".5", "-0.25", "1.5e2", "1."],
+    "(LString false)": ['"ab"', '""', '"a\\n"', '"a', '"\u00e9"'],
+    "(LString true)": ['"ab"', "`b`", "``", "`b"],
+    "LChar": ["'a'", "'\\n'", "'ab'", "'\\x41'", "'\u00e9'", "''"],
+    "LDuration": ["2m", "1h3s", "1.5s", "2"],
+}
+
+
+def lit_examples(e):
+    if e[0] == 'rune':
+        return [chr(e[1])]
+    if e[0] != 'lit':
+        return []
+    t = e[1]
+    if t in LIT_EXAMPLES:
+        return LIT_EXAMPLES[t]
+    import re
+    ws = [bytes(int(x) for x in m.split(";") if x.strip()).decode() for m in re.findall(r"\[([0-9; ]*)\]", t)]
+    if t.startswith("(LRune"):
+        return [chr(int(t[7:-1]))]
+    return ws + [w + "x" for w in ws[:1]]
+
+
+def rand_lit_input_for(rng, rules, root, maxfrag=6):
+    """an input biased towards the grammar's own terminals: each fragment is an example of one of its terminals
+    (70%) or a random fragment, optionally followed by white space"""
+    pool = []
+    for e in itertools.chain(*[walk(r) for r in rules + [root]]):
+        pool += lit_examples(e)
+    out = ""
+    for _ in range(rng.randrange(maxfrag + 1)):
+        out += rng.choice(pool) if pool and rng.random() < 0.7 else rng.choice(LIT_FRAGMENTS)
+        if rng.random() < 0.3:
+            out += rng.choice([" ", " ", "  ", "\n", " \n", "\t"])
+    return list(out.encode())
+
+
+def rand_lit_grammar(rng, max_rules=2, depth=3):
+    return rand_grammar(rng, LIT_OPS, max_rules=max_rules, depth=depth, terminals=LIT_POOL)
+
+
+def json_like(rng):
+    """a small JSON-shaped grammar (the C16 workload in miniature): value = string | float | integer | bool | null |
+    '[' sep_by(value, ',') ']' with trimming"""
+    ws = rng.choice(['WsSpaces', 'WsSpacesNl'])
+    tr = lambda p: ('ltrim', ws, p)
+    value = ('ref', 0)
+    arr = ('seq', 'SeqOf', 'IArray', False, None,
+           [tr(lit_rune(91)), ('seq', ('SSepBy', True), 'INone', False, None, [tr(value), tr(lit_rune(44))]), tr(lit_rune(93))])
+    alts = [LIT_STRING, LIT_FLOAT, LIT_INTEGER, LIT_BOOL, LIT_NIL, arr]
+    body = ('choice' if rng.random() < 0.5 else 'any', alts)
+    return [('memo', 1, body)], tr(value)
+
+
+def arith_like(rng):
+    """a small arithmetic grammar (the C05 workload in miniature): left-recursive sums of integers with trimming"""
+    ws = rng.choice(['WsSpaces', 'WsSpacesNl'])
+    num = ('rtrim', ws, LIT_INTEGER) if rng.random() < 0.5 else ('ltrim', ws, LIT_INTEGER)
+    plus = ('ltrim', ws, lit_op("+")) if rng.random() < 0.5 else ('rtrim', ws, lit_rune(43))
+    sum_ = ('memo', 1, ('any', [seqof(('ref', 0), plus, num), num]))
+    return [sum_], ('ref', 0)
